@@ -65,7 +65,7 @@ func init() {
 	})
 	register(&Prop{
 		ID:    "C11",
-		Rules: []*Rule{rCodec, rRegType, rErrnoTable, rStackSlot, rStackParse, rStackEmpty, rTreeRec, rOneParser, rSiblingGuard, rCodeGetter},
+		Rules: []*Rule{rCodec, rPayloadDecoder, rRegType, rErrnoTable, rStackSlot, rStackParse, rStackEmpty, rTreeRec, rOneParser, rSiblingGuard, rCodeGetter},
 		Explain: "Decides, for every registered type key, that each annotation field has a wire slot that the writer fills from that same field and the reader restores into that same field (payload members, positional safe details, message), that decoders rebuild the key's own type (so flag types recognised by Go type survive), that errno predicates travel in matching pairs, and that the printed-stack slot is re-parsed for the same key set by both stack accessors. " +
 			"NOT decided: equality of re-parsed frames (text parsing), tag values rendered through ValueStr, OS predicates on foreign platforms beyond the pairing.",
 		Trusted: []string{"go/ssa", "gogo/protobuf marshalling of the payload messages"},
